@@ -116,9 +116,11 @@ EligNext(t, v, s) ==
 \* firing by the latest successful notification of its group to that integration
 C01_Deadline ==
   \A p \in DOMAIN elig :
-     (elig[p] >= 0 /\ now - elig[p] > Bound) =>
-        LET k == <<GroupKeyOf(p[1]), p[2]>>
-        IN k \in DOMAIN last /\ p[1] \in last[k].firing
+     LET k == <<GroupKeyOf(p[1]), p[2]>>
+         \* the omission lasts since the alert became eligible or since the latest notification
+         \* (which omits it) was delivered, whichever is later
+         since == IF k \in DOMAIN last /\ last[k].t > elig[p] THEN last[k].t ELSE elig[p]
+     IN (elig[p] >= 0 /\ now - since > Bound) => (k \in DOMAIN last /\ p[1] \in last[k].firing)
 
 (* --- environment events ------------------------------------------------ *)
 Cfg(c) ==
